@@ -433,7 +433,6 @@ package wire
 //@ func Load
 //@   ensures result.0 != nil ==> result.0.Fset != nil || len(result.0.Sets) == 0
 
-
 // ---------------------------------------------------------------------------
 // C18: what wire itself contributes to "regeneration depends only on current sources"
 // ---------------------------------------------------------------------------
@@ -573,3 +572,113 @@ package wire
 //@   loop 4 invariant trailOK(providerMap, curr) && hasDeps(providerMap, head) && head == curr[len(curr) - 1]
 //@   loop 4 invariant [C07] TMD[visited][tid(root)] || (len(stk) >= 1 && len(stk[0]) == 1 && stk[0][0] == root)
 //@   loop 6 invariant i <= j
+
+// ---- copyast.go (C15): the deep copy is a field-by-field homomorphism --------------------------
+// The old-node -> new-node table m is type preserving (a node's copy has the node's dynamic type).
+// The per-node-kind clauses of copyAST$1 are generated from the struct definitions of go/ast by
+// `schema astcopy` (see /verif/govc/schema.go): children are already in the table (astutil.Apply
+// calls the post function bottom-up: trusted), and the new node's fields are the originals' scalars
+// and the table images of the originals' children.
+//@ define typedTable(m map[ast.Node]ast.Node) = forall k ast.Node :: has(m, k) ==> tag(m[k]) == tag(k) && ptr(m[k]) != 0
+//@ define inTable(m map[ast.Node]ast.Node, k ast.Node) = has(m, k) && tag(m[k]) == tag(k) && ptr(m[k]) != 0
+//@ func copyAST
+//@   props C15
+//@   requires original != nil && !(original is *ast.File) && !(original is *ast.Package)
+//@ func copyAST$1
+//@   schema astcopy c m
+//@   requires m != nil && typedTable(m)
+//@   frame [C15] forall k ast.Node :: old(has(m, k)) ==> has(m, k) && m[k] == old(m[k])
+//@   loop 1 invariant len(cg.List) == len(node.List) && fresh(cg.List)
+//@   loop 1 invariant forall j :: 0 <= j && j < len(node.List) ==> node.List[j] == old(node.List[j])
+//@   loop 1 invariant forall j :: 0 <= j && j < done ==> cg.List[j] != nil && box(cg.List[j]) == m[box(node.List[j])]
+//@   loop 2 invariant len(fl.List) == len(node.List) && fresh(fl.List)
+//@   loop 2 invariant forall j :: 0 <= j && j < len(node.List) ==> node.List[j] == old(node.List[j])
+//@   loop 2 invariant forall j :: 0 <= j && j < done ==> fl.List[j] != nil && box(fl.List[j]) == m[box(node.List[j])]
+//@   loop 3 invariant len(decl.Specs) == len(node.Specs) && fresh(decl.Specs)
+//@   loop 3 invariant forall j :: 0 <= j && j < len(node.Specs) ==> node.Specs[j] == old(node.Specs[j])
+//@   loop 3 invariant forall j :: 0 <= j && j < done ==> decl.Specs[j] == m[node.Specs[j]]
+//@ func exprFromMap
+//@   props C15 C20
+//@   pure
+//@   requires key != nil ==> inTable(m, key)
+//@   ensures key == nil ==> result == nil
+//@   ensures key != nil ==> result == m[key]
+//@ func stmtFromMap
+//@   props C15 C20
+//@   pure
+//@   requires key != nil ==> inTable(m, key)
+//@   ensures key == nil ==> result == nil
+//@   ensures key != nil ==> result == m[key]
+//@ func commentGroupFromMap
+//@   props C15 C20
+//@   pure
+//@   nullable key
+//@   requires key != nil ==> inTable(m, box(key))
+//@   ensures key == nil ==> result == nil
+//@   ensures key != nil ==> box(result) == m[box(key)]
+//@ func identFromMap
+//@   props C15 C20
+//@   pure
+//@   nullable key
+//@   requires key != nil ==> inTable(m, box(key))
+//@   ensures key == nil ==> result == nil
+//@   ensures key != nil ==> box(result) == m[box(key)]
+//@ func blockStmtFromMap
+//@   props C15 C20
+//@   pure
+//@   nullable key
+//@   requires key != nil ==> inTable(m, box(key))
+//@   ensures key == nil ==> result == nil
+//@   ensures key != nil ==> box(result) == m[box(key)]
+//@ func fieldListFromMap
+//@   props C15 C20
+//@   pure
+//@   nullable key
+//@   requires key != nil ==> inTable(m, box(key))
+//@   ensures key == nil ==> result == nil
+//@   ensures key != nil ==> box(result) == m[box(key)]
+//@ func callExprFromMap
+//@   props C15 C20
+//@   pure
+//@   nullable key
+//@   requires key != nil ==> inTable(m, box(key))
+//@   ensures key == nil ==> result == nil
+//@   ensures key != nil ==> box(result) == m[box(key)]
+//@ func basicLitFromMap
+//@   props C15 C20
+//@   pure
+//@   nullable key
+//@   requires key != nil ==> inTable(m, box(key))
+//@   ensures key == nil ==> result == nil
+//@   ensures key != nil ==> box(result) == m[box(key)]
+//@ func funcTypeFromMap
+//@   props C15 C20
+//@   pure
+//@   nullable key
+//@   requires key != nil ==> inTable(m, box(key))
+//@   ensures key == nil ==> result == nil
+//@   ensures key != nil ==> box(result) == m[box(key)]
+//@ func copyExprList
+//@   props C15 C20
+//@   modifies nothing
+//@   requires forall i :: 0 <= i && i < len(exprs) ==> exprs[i] != nil && inTable(m, exprs[i])
+//@   ensures (exprs == nil) == (result == nil)
+//@   ensures len(result) == len(exprs) && (result != nil ==> fresh(result))
+//@   ensures forall i :: 0 <= i && i < len(exprs) ==> result[i] == m[exprs[i]]
+//@   loop 1 invariant forall j :: 0 <= j && j < done ==> newExprs[j] == m[exprs[j]]
+//@ func copyStmtList
+//@   props C15 C20
+//@   modifies nothing
+//@   requires forall i :: 0 <= i && i < len(stmts) ==> stmts[i] != nil && inTable(m, stmts[i])
+//@   ensures (stmts == nil) == (result == nil)
+//@   ensures len(result) == len(stmts) && (result != nil ==> fresh(result))
+//@   ensures forall i :: 0 <= i && i < len(stmts) ==> result[i] == m[stmts[i]]
+//@   loop 1 invariant forall j :: 0 <= j && j < done ==> newStmts[j] == m[stmts[j]]
+//@ func copyIdentList
+//@   props C15 C20
+//@   modifies nothing
+//@   requires forall i :: 0 <= i && i < len(idents) ==> idents[i] != nil && inTable(m, box(idents[i]))
+//@   ensures (idents == nil) == (result == nil)
+//@   ensures len(result) == len(idents) && (result != nil ==> fresh(result))
+//@   ensures forall i :: 0 <= i && i < len(idents) ==> box(result[i]) == m[box(idents[i])]
+//@   loop 1 invariant forall j :: 0 <= j && j < done ==> newIdents[j] != nil && box(newIdents[j]) == m[box(idents[j])]
